@@ -147,7 +147,7 @@ def w_roland(pid, tier, seed, job):
 
 
 def run(ctx):
-    F.pmap(ctx, w_volume, [ctx.seed * 7 + i for i in range(16 if ctx.quick else 64)])
+    F.pmap(ctx, w_volume, [ctx.seed * 7 + i for i in range(10 if ctx.quick else 64)])
     if os.path.exists(os.path.join(os.path.dirname(os.path.dirname(os.path.abspath(__file__))), "roland_damage.py")):
         F.pmap(ctx, w_roland, [ctx.seed * 13 + i for i in range(8 if ctx.quick else 48)])
     else:
